@@ -71,7 +71,7 @@ func runC04(c *Ctx) {
 		"(online) onlineTransition is called, and the frame marked, exactly under !Host.Online; inside it a host goes online together with its MAC entry, and other IPv4 addresses of the MAC are marked offline and dirty only when the new host is IPv4 with an address different from the entry's current IPv4, the sibling is IPv4, different and online; " +
 		"(ageing) purge selects for deletion under !Online && LastSeen.Before(now-PurgeDeadline), for offline under Online && LastSeen.Before(now-OfflineDeadline), deletes through deleteHost; deleteHost removes the MAC entry only when its host list became empty; " +
 		"(who) hosts are created only in findOrCreateHostWithLock (callers: Parse, DHCPv4Update) and removed only in deleteHost (callers: purge, findOrCreateHostWithLock). Not decided: equality with a reference model over histories, timing."
-	r.Rule("create", "host creation sites carry the discovery conditions of their family", 11)
+	r.Rule("create", "host creation sites carry the discovery conditions of their family", 12)
 	r.Rule("online", "online transition and sibling-offline conditions", 20)
 	r.Rule("ageing", "purge selections and deletion conditions", 5)
 	r.Rule("who", "who may create and delete hosts", 7)
@@ -108,6 +108,23 @@ func runC04(c *Ctx) {
 			}
 			r.Add(core.Obligation{Rule: "create", Key: "create Parse ARP host lookup key", Func: core.FuncName(parse), Pos: c.P.Pos(core.PosOf(ins)), Status: st,
 				Basis: "looked up by the ARP sender MAC [8:14) and IP [14:18)", Detail: fmt.Sprintf("ARP host lookup uses MAC=%s IP=%s", cf["MAC"], cf["IP"])})
+			// the MAC that enters the host table is a MAC the guards tested: the ARP sender hardware address is not the
+			// Ethernet source, so "unicast" and "not our own" must (also) be established for it
+			used := cf["MAC"]
+			usedRe := regexpQuote(used)
+			var missing []string
+			if !hasGuard(gs, `^packet\.IsUnicastMAC\((net\.HardwareAddr\()?`+usedRe+`\)?\)$`) {
+				missing = append(missing, "unicast")
+			}
+			if !hasGuard(gs, `^!bytes\.Equal\((net\.HardwareAddr\()?`+usedRe+`\)?,recv\.NICInfo\.HostAddr4\.MAC\)$`) {
+				missing = append(missing, "not the host NIC's")
+			}
+			st = core.Proved
+			if len(missing) > 0 {
+				st = core.Violated
+			}
+			r.Add(core.Obligation{Rule: "create", Key: "create Parse ARP host MAC is the MAC tested", Func: core.FuncName(parse), Pos: c.P.Pos(core.PosOf(ins)), Status: st,
+				Basis: "unicast and not-own are established for the ARP sender hardware address", Detail: "the host is created under the ARP sender hardware address " + used + ", but only the Ethernet source was tested (" + strings.Join(missing, ", ") + " not established for it): an ARP frame whose sender address is our own MAC creates a host under our MAC and marks our own address offline"})
 		case hasGuard(gs, `^\(\(packet\.Ether\)\.EtherType\(local\(frame\)\.ether\)==34525\)$`):
 			requireGuards(c, "create", "Parse IPv6 host", ins, []guardReq{{"unicast source MAC", unicast}, {"source MAC is not the host NIC", notOwn}})
 			dnf := pathDNF(ins.Block())
